@@ -13,7 +13,7 @@ import re
 import collections
 
 from ..cfg import F, op_local, op_base
-from ..gates import call_result_edges, guarded, unguarded_path, test_edges, derive
+from ..gates import call_result_edges, guarded, unguarded_path, test_edges, derive, compare_seeds
 from ..cg import field_writes
 from ..prov import origins, operand_origins
 
@@ -504,7 +504,49 @@ def _auth_shape(ctx, r6, rr):
     for (a, b) in neg_e:
         none_side |= rr.reach([b])
     # Ok constructions: aggregates Result::Ok assigned to _0
-    eq_calls = rr.calls(lambda n: re.search(r'PartialEq(<.*>)?>::eq$', n) is not None)
+    eq_calls = rr.calls(lambda n: re.search(r'PartialEq(<.*>)?>::eq$|ConstantTimeEq>::ct_eq$|constant_time_eq$', n) is not None)
+    # a local comparison helper is accepted as "the equality" only if it provably compares in full
+    for b, nm, t in rr.calls(lambda n: n in ctx.fx.fns and ctx.fx.fns[n]['locals'][0] == 'bool' and ctx.fx.fns[n]['argc'] >= 2):
+        xp = lambda n: re.search(r'Mutex(::)?<.*>::lock$|Option(::)?<.*>::and_then$|Result(::)?<.*>::ok$', n) is not None
+        srcs = set()
+        for a in t['a']:
+            srcs |= operand_origins(rr, a, extra_pass=xp)
+        if any(o[0] == 'field' and o[1].endswith('ControlRequest.auth') for o in srcs) and any(o[0] == 'field' and o[1].endswith('ControlState.auth_token') for o in srcs):
+            why = _helper_full_equality(ctx, nm)
+            if why is None:
+                eq_calls.append((b, nm, t))
+                r6.ok('eq-helper|%s' % nm.split('::')[-1], loc=rr.loc(b), detail='helper compares lengths / full equality')
+            else:
+                r6.bad('eq-helper|%s' % nm.split('::')[-1], 'token comparison helper %s does not establish full equality: %s' % (nm, why), loc=rr.loc(b))
+    # comparison wrapped in a closure: `provided.is_some_and(|t| <eq or helper>(t, expected))`
+    for b, nm, t in rr.calls(lambda n: re.search(r'Option(::)?<.*>::(is_some_and|map_or|is_none_or)$', n) is not None):
+        xp = lambda n: re.search(r'Mutex(::)?<.*>::lock$|Option(::)?<.*>::and_then$|Result(::)?<.*>::ok$', n) is not None
+        recv = operand_origins(rr, t['a'][0], extra_pass=xp)
+        if not any(o[0] == 'field' and o[1].endswith('ControlRequest.auth') for o in recv):
+            continue
+        clo = None
+        caps = set()
+        for a in t['a'][1:]:
+            for o in operand_origins(rr, a, extra_pass=xp):
+                if o[0] == 'agg' and o[1].startswith('closure:'):
+                    clo = o[1][8:]
+                caps.add(o)
+        if clo is None or clo not in ctx.fx.fns:
+            continue
+        if not any(o[0] == 'field' and o[1].endswith('ControlState.auth_token') for o in caps):
+            continue
+        cf = F(ctx.fx.fns[clo])
+        inner = cf.calls(lambda n: re.search(r'PartialEq(<.*>)?>::eq$|ConstantTimeEq>::ct_eq$', n) is not None or (n in ctx.fx.fns and ctx.fx.fns[n]['locals'][0] == 'bool'))
+        if len(inner) != 1:
+            continue
+        ib, inm, it = inner[0]
+        if inm in ctx.fx.fns:
+            why = _helper_full_equality(ctx, inm)
+            if why is not None:
+                r6.bad('eq-helper|%s' % inm.split('::')[-1], 'token comparison helper %s does not establish full equality: %s' % (inm, why), loc=cf.loc(ib))
+                continue
+            r6.ok('eq-helper|%s' % inm.split('::')[-1], loc=cf.loc(ib), detail='helper compares lengths / full equality')
+        eq_calls.append((b, nm, {'a': [t['a'][0], ['k', 'str', 'captured ControlState.auth_token']], 'd': t['d'], '_closure_eq': True}))
     vw_calls = rr.calls(lambda n: n.endswith('PairingStore::validate_with_role'))
     permits = set()
     for b, nm, t in eq_calls:
@@ -541,6 +583,9 @@ def _auth_shape(ctx, r6, rr):
     # equality compares the provided token with the expected one
     okeq = False
     for b, nm, t in eq_calls:
+        if t.get('_closure_eq'):
+            okeq = True
+            continue
         xp = lambda n: re.search(r'Mutex(::)?<.*>::lock$|Option(::)?<.*>::and_then$|Result(::)?<.*>::ok$', n) is not None
         o0 = operand_origins(rr, t['a'][0], extra_pass=xp)
         o1 = operand_origins(rr, t['a'][1], extra_pass=xp)
@@ -553,6 +598,59 @@ def _auth_shape(ctx, r6, rr):
         r6.ok('eq-operands')
     else:
         r6.bad('eq-operands', 'the admin-token equality does not compare request.auth with ControlState.auth_token', loc=rr.loc(0))
+
+
+def _helper_full_equality(ctx, hid):
+    """None if every possibly-true return of the bool helper is guarded by a full equality
+    (PartialEq::eq over values of two different parameters) or by a length-equality test of
+    two different parameters; else the reason."""
+    fx = ctx.fx
+    fn = F(fx.fns[hid])
+    argc = fn.r['argc']
+
+    def params_of(o):
+        return {x[1] for x in operand_origins(fn, o, extra_pass=lambda n: re.search(r'::(bytes|as_bytes|as_str|len|unwrap_or|unwrap_or_default|map|as_deref)$', n) is not None) if x[0] == 'arg'}
+    cut = set()
+    for b, nm, t in fn.calls(lambda n: re.search(r'PartialEq(<.*>)?>::eq$|ConstantTimeEq>::ct_eq$', n) is not None):
+        ps = set()
+        for a in t['a'][:2]:
+            ps |= params_of(a)
+        if len(ps) >= 2:
+            pos, neg, _ = call_result_edges(fn, b)
+            if not t['d'][1] and t['d'][0] == 0:
+                return None      # returns the full comparison directly
+            cut |= pos
+
+    def is_len_cmp(op, a, c, bb):
+        if op not in ('Eq', 'Ne'):
+            return None
+        oa = {x[2] for x in operand_origins(fn, a) if x[0] == 'call'}
+        oc = {x[2] for x in operand_origins(fn, c) if x[0] == 'call'}
+        if any(n.endswith('::len') for n in oa) and any(n.endswith('::len') for n in oc):
+            pa = set()
+            for bb2, nm2, t2 in fn.calls(lambda n: n.endswith('::len')):
+                pa |= params_of(t2['a'][0])
+            if len(pa) >= 2:
+                return op == 'Eq'
+        return None
+    seeds = compare_seeds(fn, is_len_cmp)
+    if seeds:
+        pos, neg, _ = test_edges(fn, seeds)
+        cut |= pos
+    if not cut:
+        return 'no length comparison and no full equality over both parameters (a zip/fold comparison truncates to the shorter input)'
+    for b in fn.g:
+        for st in fn.bbs[b]['s']:
+            if st[0] == 'A' and st[1][0] == 0 and not st[1][1]:
+                rv = st[2]
+                if rv[0] == 'use' and rv[1][0] == 'k' and 'false' in rv[1][2]:
+                    continue
+                if not guarded(fn, b, cut):
+                    return 'a possibly-true result at line %d is reachable without passing the length/equality test' % fn.line(b)
+        t = fn.term(b)
+        if t['k'] == 'call' and not t['d'][1] and t['d'][0] == 0 and not guarded(fn, b, cut):
+            return 'a computed result at line %d is reachable without passing the length/equality test' % fn.line(b)
+    return None
 
 
 def _reachable_avoiding(fn, b, edges):
